@@ -3,7 +3,7 @@
 Differential oracle over an exhaustively enumerated product:
    system {H; H + 2 Lindblad terms; smooth H(t); H(t), gamma(t), A(t)} x coupling {sigma_z/2; sigma_x/2 (basis transform);
    d=3 non-diagonal with a repeated eigenvalue (block form); the same spectrum in a generic basis} x spectral density
-   {ohmic exponential T=0.5; super-ohmic gaussian T=0} x memory {None; dkmax 1, 2 (< n) with add_correlation_time None/0/inf;
+   {ohmic exponential T=0.5; super-ohmic gaussian T=0} x memory {None; dkmax 1, 2 (< n) with add_correlation_time None/0/1.5dt/inf;
    dkmax n+2 with None/0} x start_time {0, -0.3, 1.7} x unique {F, T} x epsrel {1e-5, 1e-8};  n = 6 steps.
 For every member: TEMPO states at every step vs compute_dynamics on the PT-TEMPO process tensor; for every n' < n the
 first n' steps taken from the long process tensor vs a process tensor built for exactly n' steps (and vs TEMPO).
@@ -36,7 +36,7 @@ SDS = {"ohmic-exp-T0.5": C.sd_spec("power", 0.25, 1.0, 3.0, "exponential", 0.5),
 def memory_settings(n):
     out = [("none", None, None)]
     for k in (1, 2):
-        for add in (None, 0.0, "inf"):
+        for add in (None, 0.0, 0.3, "inf"):          # 0.3 = 1.5 dt: a finite value that is not a multiple of dt
             out.append((f"K{k}<n", k, add))
     out += [("K>n", n + 2, None), ("K>n", n + 2, 0.0)]
     return out
@@ -301,7 +301,7 @@ def run(tier, seed):
         "process_tensors_built": pts_built,
         "rule": "shards = (system, coupling, spectral density, unique), each running memory settings x start times x epsrel; "
                 "thorough = full product of 4 systems x 4 couplings x 2 spectral densities x 9 memory settings (dkmax None; 1, 2 "
-                "with add_correlation_time None/0/inf; n+2 with None/0) x start{0,-0.3,1.7} x unique{F,T} x epsrel{1e-5,1e-8}; quick = "
+                "with add_correlation_time None/0/1.5dt/inf; n+2 with None/0) x start{0,-0.3,1.7} x unique{F,T} x epsrel{1e-5,1e-8}; quick = "
                 "{H+L, H(t)+L(t)} x 4 couplings x 2 sd x 9 memory x start 1.7 x unique x epsrel plus {H, H(t)} x 3 couplings x 3 memory x "
                 "start{0,-0.3} x unique x epsrel. Per member: every step of TEMPO vs PT-TEMPO+compute_dynamics, and for every "
                 f"n' = 1..{N_STEPS - 1} the first n' steps of the long PT vs the full run, vs a PT built for n' steps (n' >= 2), vs TEMPO. "
